@@ -21,7 +21,7 @@ class Profile:
         self.n_txn = (3, 10)
         self.w = dict(map=10, filter=5, merge=8, or_else=3, snapshot=6, gate=3, once=2, hold=8, updates=2, value=2,
                       map_c=5, lift=6, accum=3, collect=2, switch_s=0, switch_c=0, sloop=0, cloop=0, defer=0, split=0,
-                      router=0, filter_opt=2, map_to=2, snapshot1=2, const=2, never=1, csink=3, sink=4, sink_co=2,
+                      router=0, filter_opt=2, map_to=2, snapshot1=2, map_s=0, map_sl=0, const=2, never=1, csink=3, sink=4, sink_co=2,
                       hold_lazy=0, accum_lazy=0)
         self.p_block = 0.5          # a history step is a multi-op transaction block
         self.p_nested = 0.15
@@ -160,6 +160,11 @@ class Gen:
             if s is None or None in cs:
                 return False
             self.add(self.new_h(), "S", "int", [s], "snapshot %d %d %s %s" % (h, s, r.choice(FN), " ".join(map(str, cs))))
+        elif k in ("map_s", "map_sl"):
+            s, c = S(), Cc()
+            if s is None or c is None:
+                return False
+            self.add(self.new_h(), "S", "int", [s], "%s %d %d %s %d" % (k, h, s, r.choice(FN), c))
         elif k == "snapshot1":
             s, c = S(), Cc()
             if s is None or c is None:
@@ -654,7 +659,7 @@ def analyze(lines):
                     sel_of[h] = sel_of[s]
             elif op in ("merge", "or_else"):
                 d[int(w[1])] = dict(op=op, deps=[A(w[2]), A(w[3])])
-            elif op == "snapshot":
+            elif op in ("snapshot", "map_s", "map_sl"):
                 d[int(w[1])] = dict(op=op, deps=[A(w[2])], reads=[A(x) for x in w[4:]])
             elif op in ("snapshot1", "gate"):
                 d[int(w[1])] = dict(op=op, deps=[A(w[2])], reads=[A(w[3])])
